@@ -253,6 +253,26 @@ Theorem C13_param_misplaced :
 Proof. exact R12_param_misplaced. Qed.
 Print Assumptions C13_param_misplaced.
 
+(** `bound` (any spelling) in the type-level attribute of a COMPANION trait whose primary is
+    educed on the same type: `Eq(bound ..)` next to PartialEq, `Copy(bound ..)` next to Clone,
+    `PartialOrd(bound ..)` next to Ord.  The companion impl is then emitted by the primary's
+    handler with the primary's bounds; the written bound would be dropped, so it is refused.
+    ("Educed" = named at the type level with its feature in [F]: [educed F].)  Type level: no gap. *)
+Theorem C13_companion_bound :
+  forall F d items, expand F d = Ok items -> invalid_companion_bound F d = false.
+Proof. exact R12_companion_bound. Qed.
+Print Assumptions C13_companion_bound.
+
+(** a `Default` item on a variant or a field (`Default`, `Default = v`, `Default(expression ..)`,
+    anything but the empty list `Default()`) while the type-level `Default(...)` carries an
+    `expression` / `expr`: the value is that expression, no designation and no field value is
+    read, the item would be dropped.  Structs, enums and unions alike; no gap (the Default
+    handler scans every variant and field itself). *)
+Theorem C13_default_beside_type_expression :
+  forall F d items, expand F d = Ok items -> invalid_default_beside_type_expression F d = false.
+Proof. exact R12_default_beside_type_expression. Qed.
+Print Assumptions C13_default_beside_type_expression.
+
 (** `name` / `rename` on a field that Debug shows positionally: the struct's / variant's Debug
     item says `named_field = false`, or the fields are tuple fields and it says nothing *)
 Theorem C13_name_on_positional :
@@ -505,6 +525,75 @@ Module Example.
     (invalid_classes A d_valid_struct = [] /\ exists its, expand A d_valid_struct = Ok its) /\
     (invalid_classes A d_valid_enum = [] /\ exists its, expand A d_valid_enum = Ok its) /\
     (invalid_classes A d_valid_union = [] /\ exists its, expand A d_valid_union = Ok its).
+  Proof. repeat split; try (vm_compute; reflexivity); eexists; vm_compute; reflexivity. Qed.
+
+  (** `bound` on a companion next to its primary:
+      #[educe(PartialEq, Eq(bound(T: Copy)))] struct S {..}
+      #[educe(Clone, Copy(bound = false))] struct S {..}
+      #[educe(PartialOrd(bound(T: Copy)), Ord)] enum E { A, B(u8) }
+      and the valid counterpart #[educe(PartialEq(bound(T: Copy)), Eq)] struct S {..} *)
+  Definition bound_T_Copy : toks := [I "bound"; G Paren [I "T"; P ":"; I "Copy"]].
+  Definition d_companion_eq :=
+    mk [educe [I "PartialEq"; P ","; I "Eq"; G Paren bound_T_Copy]] "S" (DStruct abc).
+  Definition d_companion_copy :=
+    mk [educe [I "Clone"; P ","; I "Copy"; G Paren [I "bound"; P "="; I "false"]]] "S" (DStruct abc).
+  Definition d_companion_partial_ord :=
+    mk [educe [I "PartialOrd"; G Paren bound_T_Copy; P ","; I "Ord"]] "E"
+       (DEnum [var [] "A" FUnit; var [] "B" (FUnnamed [fld [] None "u8"])]).
+  Definition d_primary_bound :=
+    mk [educe [I "PartialEq"; G Paren bound_T_Copy; P ","; I "Eq"]] "S" (DStruct abc).
+  (** the companion alone: #[educe(Eq(bound(T: Copy)))] struct S {..} *)
+  Definition d_companion_alone := mk [educe [I "Eq"; G Paren bound_T_Copy]] "S" (DStruct abc).
+
+  Example companion_bound_fires :
+    (invalid_classes A d_companion_eq = ["companion_bound"] /\ expand A d_companion_eq = Err E_attr_format) /\
+    (invalid_classes A d_companion_copy = ["companion_bound"] /\ expand A d_companion_copy = Err E_attr_format) /\
+    (invalid_classes A d_companion_partial_ord = ["companion_bound"] /\
+     expand A d_companion_partial_ord = Err E_attr_format) /\
+    (invalid_classes A d_primary_bound = [] /\ exists its, expand A d_primary_bound = Ok its) /\
+    (invalid_classes A d_companion_alone = [] /\ exists its, expand A d_companion_alone = Ok its) /\
+    (* with the primary's feature off the primary is not educed (its name is then unknown) *)
+    invalid_companion_bound [TPartialOrd] d_companion_partial_ord = false.
+  Proof. repeat split; try (vm_compute; reflexivity); eexists; vm_compute; reflexivity. Qed.
+
+  (** a Default item below a type-level expression:
+      #[educe(Default(expression = U { a: 1 }))] union U { #[educe(Default = 5)] a: u8, b: u16 }
+      #[educe(Default(expr = E::A))] enum E { #[educe(Default)] A, B(#[educe(Default(expression = 5))] u8) }
+      #[educe(Default(expression = f()))] struct S { a: u8, #[educe(Default = 5)] b: u16, c: u32 }
+      and, without the type-level expression,
+      #[educe(Default)] union U { #[educe(Default = 5)] a: u8, b: u16 };
+      the empty list says nothing:
+      #[educe(Default(expression = U { a: 1 }))] union U { #[educe(Default())] a: u8, b: u16 } *)
+  Definition five : tt := TLit (LKInt 5 "") "5".
+  Definition default_5 : attr := educe [I "Default"; P "="; five].
+  Definition default_expr_U : attr :=
+    educe [I "Default"; G Paren [I "expression"; P "="; I "U"; G Brace [I "a"; P ":"; one]]].
+  Definition d_default_beside_union :=
+    mk [default_expr_U] "U" (DUnion [fld [default_5] (Some "a") "u8"; fld [] (Some "b") "u16"]).
+  Definition d_default_beside_enum :=
+    mk [educe [I "Default"; G Paren [I "expr"; P "="; I "E"; P "::"; I "A"]]] "E"
+       (DEnum [var [educe [I "Default"]] "A" FUnit;
+               var [] "B" (FUnnamed [fld [educe [I "Default"; G Paren [I "expression"; P "="; five]]] None "u8"])]).
+  Definition d_default_beside_struct :=
+    mk [educe [I "Default"; G Paren [I "expression"; P "="; I "f"; G Paren []]]] "S"
+       (DStruct (FNamed [fld [] (Some "a") "u8"; fld [default_5] (Some "b") "u16"; fld [] (Some "c") "u32"])).
+  Definition d_default_no_type_expression :=
+    mk [educe [I "Default"]] "U" (DUnion [fld [default_5] (Some "a") "u8"; fld [] (Some "b") "u16"]).
+  Definition d_default_empty_beside :=
+    mk [default_expr_U] "U"
+       (DUnion [fld [educe [I "Default"; G Paren []]] (Some "a") "u8"; fld [] (Some "b") "u16"]).
+
+  Example default_beside_type_expression_fires :
+    (invalid_classes A d_default_beside_union = ["default_beside_type_expression"] /\
+     expand A d_default_beside_union = Err E_attr_format) /\
+    (invalid_classes A d_default_beside_enum = ["default_beside_type_expression"] /\
+     expand A d_default_beside_enum = Err E_attr_format) /\
+    (invalid_classes A d_default_beside_struct = ["default_beside_type_expression"] /\
+     expand A d_default_beside_struct = Err E_attr_format) /\
+    (invalid_classes A d_default_no_type_expression = [] /\
+     exists its, expand A d_default_no_type_expression = Ok its) /\
+    (invalid_classes A d_default_empty_beside = [] /\
+     exists its, expand A d_default_empty_beside = Ok its).
   Proof. repeat split; try (vm_compute; reflexivity); eexists; vm_compute; reflexivity. Qed.
 
   (** the hypothesis of [C13_rejected] holds on every invalid example *)
